@@ -96,6 +96,7 @@ pub const U_I64: u8 = 2;
 pub const U_LEN: u8 = 3;
 pub const U_I32: u8 = 4;
 pub const U_GROUP: u8 = 5;
+pub const U_GROUP_NESTED: u8 = 6; // group 9 { group 5 { fixed32 } fixed32 }
 
 fn put_unknown<const N: usize>(o: &mut rp::Out<N>, kind: u8, p: &[u8; 8]) {
     // unknown field number 9
@@ -123,6 +124,16 @@ fn put_unknown<const N: usize>(o: &mut rp::Out<N>, kind: u8, p: &[u8; 8]) {
             o.put(0x15); // inner field 2, fixed32
             o.put_all(&p[..4]);
             o.put(0x4c);
+        }
+        U_GROUP_NESTED => {
+            o.put(0x4b); // start group 9
+            o.put(0x2b); // start group 5 (a different field number)
+            o.put(0x15);
+            o.put_all(&p[..4]);
+            o.put(0x2c); // end group 5
+            o.put(0x15);
+            o.put_all(&p[4..]);
+            o.put(0x4c); // end group 9
         }
         _ => {}
     }
